@@ -12,7 +12,10 @@ RULE = ("pairs (prefix history of 1-4 requests by up to 3 clients over all opera
         "before the probe (same harness clock); response bytes and final raw-table snapshots must be "
         "equal. Probes are biased to identifier-less requests (ID placeholder), to another identity "
         "and another protocol version than the prefix. non-trivial = the prefix contains a successful "
-        "creating operation, or a different version or identity than the probe.  Session pairs: the "
+        "creating operation, or a different version or identity than the probe.  Prefix requests also "
+        "carry header options (asynchronous indicator, undo / continue, batch order, stale or future "
+        "time stamps, request credentials, maximum response size) and DiscoverVersions with client "
+        "lists: none of it may change what a later request gets.  Session pairs: the "
         "same over ONE KmipSession (prefix requests with their own Maximum Response Size / batch "
         "options, chunked delivery), reference = the probe on a new session of a fresh engine on a "
         "byte copy taken when the last prefix response had been sent")
@@ -69,9 +72,44 @@ def gen_req(draw, idx, probe=False):
                                        if tuple(v) < (2, 0) else {"op": "Get", "uid": tu}]))]
         groups = draw(st.sampled_from([["admins"], ["staff"], None, ["admins", "staff"]]))
         who = draw(st.sampled_from(["carol", "carol", "bob", "alice"]))
+    if not probe and draw(st.integers(0, 5)) == 0:
+        # requests whose own parameters narrow or refuse something: none of it may outlive them
+        items = [draw(st.sampled_from([
+            {"op": "DiscoverVersions", "versions": [[1, 4], [1, 3]]},
+            {"op": "DiscoverVersions", "versions": [[2, 0]]},
+            {"op": "DiscoverVersions", "versions": [[1, 0]]},
+            {"op": "DiscoverVersions", "versions": [[9, 9]]},
+            {"op": "DiscoverVersions", "versions": [[1, 2], [3, 0], [1, 0]]},
+            {"op": "Query", "functions": ["QUERY_OPERATIONS"]},
+            {"op": "Locate", "attrs": [["Object Type", "SymmetricKey"]], "max": 1},
+            {"op": "Locate", "attrs": [["Name", "no-such-name"]]},
+        ]))]
+        if items[0]["op"] == "DiscoverVersions" and v < (1, 1):
+            v = (1, 1)
     req = {"who": who, "groups": groups, "v": list(v), "items": items}
     if len(items) > 1 and draw(st.booleans()):
         req["cont"] = "CONTINUE"
+    # header options: every one of them belongs to this request only
+    if draw(st.integers(0, 3)) == 0:
+        opt = draw(st.sampled_from(["async-true", "async-false", "undo", "order-false", "order-true",
+                                    "stale-time", "future-time", "credential", "max"]
+                                   if not probe else ["async-false", "order-true", "credential"]))
+        if opt == "async-true":
+            req["async"] = True
+        elif opt == "async-false":
+            req["async"] = False
+        elif opt == "undo":
+            req["cont"] = "UNDO"
+        elif opt.startswith("order"):
+            req["order"] = opt.endswith("true")
+        elif opt == "stale-time":
+            req["ts"] = 1_000_000_000
+        elif opt == "future-time":
+            req["ts"] = 2_000_000_000
+        elif opt == "credential":
+            req["cred"] = [{"kind": "user", "user": "mallory", "password": "pw"}]
+        elif opt == "max":
+            req["max"] = draw(st.sampled_from([0, 64, 300, 100000]))
     return req
 
 
